@@ -157,6 +157,37 @@ def _impl(tier, seed, search):
         valid_obj('Rand', lambda: [SO3.Rand(), SE3.Rand(), UnitQuaternion.Rand(), SO2.Rand(), SE2.Rand()][i % 5], {})
         valid_obj('UQ(SO3)', lambda: UnitQuaternion(SO3(R, check=False)), dict(R=R))
         valid_obj('UQ(R)', lambda: UnitQuaternion(R), dict(R=R))
+        # members given with integer entries (integer arrays, Python ints): in-place and ordinary operators must still give members
+        if i % 5 == 2:
+            def iperm(n_):
+                while True:
+                    P_ = np.zeros((n_, n_), dtype=int); perm = g.permutation(n_)
+                    for r_, c_ in enumerate(perm): P_[r_, c_] = int(g.choice([-1, 1]))
+                    if round(float(np.linalg.det(P_))) == 1: return P_
+            ti = [int(x_) for x_ in g.integers(-5, 6, size=3)]
+            def iSE(n_):
+                T_ = np.eye(n_ + 1, dtype=int); T_[:n_, :n_] = iperm(n_); T_[:n_, n_] = ti[:n_]; return T_
+            mkint = {'SO2': lambda: SO2(iperm(2)), 'SO3': lambda: SO3(iperm(3)), 'SE2': lambda: SE2(iSE(2)), 'SE3': lambda: SE3(iSE(3)),
+                     'SE3(x,y,z)': lambda: SE3(ti[0], ti[1], ti[2]), 'SE2(x,y)': lambda: SE2(ti[0], ti[1])}
+            mkflt = {'SO2': lambda: SO2(inputs.so2(g), check=False), 'SO3': lambda: SO3(inputs.so3(g), check=False), 'SE2': lambda: SE2(inputs.se2(g), check=False), 'SE3': lambda: SE3(inputs.se3(g), check=False)}
+            for iname, mki in mkint.items():
+                base_ = iname.split('(')[0]
+                def ops():
+                    out_ = {}
+                    Y = mkflt[base_]()
+                    X = mki(); out_['X*Y'] = (X * Y, np.asarray(X.A, float) @ np.asarray(Y.A, float))
+                    X = mki(); A0 = np.asarray(X.A, float).copy(); X *= Y; out_['X*=Y'] = (X, A0 @ np.asarray(Y.A, float))
+                    X = mki(); out_['X/Y'] = (X / Y, np.asarray(X.A, float) @ np.linalg.inv(np.asarray(Y.A, float)))
+                    X = mki(); A0 = np.asarray(X.A, float).copy(); X /= Y; out_['X/=Y'] = (X, A0 @ np.linalg.inv(np.asarray(Y.A, float)))
+                    X = mki(); out_['Y*X'] = (Y * X, np.asarray(Y.A, float) @ np.asarray(X.A, float))
+                    X = mki(); out_['X**2'] = (X ** 2, np.linalg.matrix_power(np.asarray(X.A, float), 2)); out_['X.inv()'] = (X.inv(), np.linalg.inv(np.asarray(X.A, float)))
+                    return out_
+                ok, r = L.noraise(f'int-members:{iname}', ops, dict(cls=iname, t=ti), f'operators on a {base_} built from integers')
+                if ok:
+                    for opn, (Z, want) in r.items():
+                        valid_obj(f'int-members:{iname}:{opn}', Z, dict(cls=iname, op=opn, t=ti))
+                        L.close(f'int-members:{iname}:{opn}', np.asarray(Z.A, float), want, 1e-9, max(1.0, float(np.max(np.abs(want)))), dict(cls=iname, op=opn, t=ti),
+                                what=f'{opn} with an integer-valued {base_} differs from the matrix result', sig=f'int-members:{opn}')
         # expression trees over each class
         if i % 3 == 0:
             for cname, mk in (('SO3', lambda: SO3(inputs.so3(g), check=False)), ('SE3', lambda: SE3(inputs.se3(g), check=False)),
